@@ -44,3 +44,5 @@ D["C05"] = dict(text="five address kinds = spec encodings of the standard script
                 technique="deductive: low-bits bit-vector VCs per round + LIA/sequence padding VC + loop invariants")
 D["C08"] = dict(text="module state: bip39.random is a SystemRandom bound once and never rebound (AST + live object); mnemonic_from_entropy_bits / new_wallet / from_entropy_bits draw exactly once, ENT = 32N/3 bits, full range [0, 2^ENT), from that object, and every word of the mnemonic encodes the drawn integer; invalid sizes draw nothing; package-wide scan: no other randomness/clock source. The distributional clauses are reduced to assumption R1 (stated, not proved).",
                 technique="deductive: effect-recording model of the RNG call + data-flow postcondition; AST scans for module state")
+D["C13"] = dict(text="frame conditions (modifies only self.children) on every derivation/serialisation/address function, each proved with an ARBITRARY children list at entry (results cannot depend on it); package-wide effect scan: children is never read, no attribute writes after construction, no shared-state mutation; derive_path is the fold of ckd; generate_children is the map over the interval; address generator step contract (index' = index + (sent or 1)); thread clause derived under the GIL assumption + bounded threaded histories.",
+                technique="deductive: frame/ownership conditions + whole-package effect scan + generator step contract; bounded history check for schedules")
